@@ -592,14 +592,6 @@ Proof.
   cbn [andb]. rewrite Z.quot_mul by lia. reflexivity.
 Qed.
 
-Lemma eq_num_representable k l r raw m e q :
-  1 <= l - r + 1 -> num_is m e r q -> min_raw k (l - r + 1) <= q <= max_raw k (l - r + 1) ->
-  eq_num k (l, r, raw) m e = Ok (q =? raw).
-Proof.
-  intros. unfold eq_num. rewrite (ctor_num_preserves k l r m e q) by assumption.
-  cbn [bind]. unfold eq_fx. rewrite !Z.eqb_refl. reflexivity.
-Qed.
-
 Lemma ctor_vec_unsigned_U l r w val :
   1 <= l - r + 1 -> r <= 0 -> 1 <= w -> w - r <= l - r + 1 -> 0 <= val < p2 w ->
   ctor_vec UFixed l r false w val = Ok (l, r, val * p2 (- r)).
@@ -670,24 +662,53 @@ Proof.
       rewrite conv_fin_U by lia. reflexivity.
 Qed.
 
-(** the proposed [==] fix answers numerically for EVERY number inside the range *)
-Lemma eq_num_eqfix_numeric k l r raw m e :
-  1 <= l - r + 1 ->
+(** [==] against a number: numeric whenever it answers ... *)
+Lemma eq_num_numeric k l r raw m e t :
   let s := Z.min e r in
-  min_raw k (l - r + 1) * p2 (r - s) <= m * p2 (e - s) <= max_raw k (l - r + 1) * p2 (r - s) ->
-  eq_num_eqfix k (l, r, raw) m e = Ok (m * p2 (e - s) =? raw * p2 (r - s)).
+  eq_num k (l, r, raw) m e = Ok t -> t = (m * p2 (e - s) =? raw * p2 (r - s)).
 Proof.
-  intros HW s HR. unfold eq_num_eqfix. fold s.
+  intros s. unfold eq_num, ctor_num. fold s.
   pose proof (p2_pos (r - s) ltac:(unfold s; lia)) as P.
   destruct (Z.eqb_spec ((m * p2 (e - s)) mod p2 (r - s)) 0) as [E|E].
-  - apply Z.mod_divide in E; [|lia]. destruct E as [q E].
-    assert (N : num_is m e r q) by (unfold num_is; fold s; exact E).
-    assert (R : min_raw k (l - r + 1) <= q <= max_raw k (l - r + 1)) by (rewrite E in HR; nia).
-    rewrite (eq_num_representable k l r raw m e q HW N R).
-    rewrite E. f_equal.
+  - apply Z.mod_divide in E; [|lia]. destruct E as [q E]. rewrite E.
+    destruct (l - r + 1 <? 1); [discriminate|].
+    destruct (_ && _); cbn [bind]; [|discriminate].
+    rewrite Z.quot_mul by lia. unfold eq_fx. rewrite !Z.eqb_refl. cbn [andb].
+    intros [= <-].
     destruct (Z.eqb_spec q raw), (Z.eqb_spec (q * p2 (r - s)) (raw * p2 (r - s))); try reflexivity; nia.
-  - f_equal. destruct (Z.eqb_spec (m * p2 (e - s)) (raw * p2 (r - s))) as [E2|]; [|reflexivity].
+  - intros [= <-].
+    destruct (Z.eqb_spec (m * p2 (e - s)) (raw * p2 (r - s))) as [E2|]; [|reflexivity].
     exfalso. apply E. rewrite E2. apply Z_mod_mult.
+Qed.
+
+(** ... it answers for every number inside the range of the format and for every number that
+    is not a multiple of 2^right; the remaining numbers (values of the grid outside the range)
+    are rejected by the constructor's static_assert *)
+Lemma eq_num_answers k l r raw m e :
+  1 <= l - r + 1 ->
+  let s := Z.min e r in
+  let M := m * p2 (e - s) in let P := p2 (r - s) in
+  eq_num k (l, r, raw) m e =
+    if (min_raw k (l - r + 1) * P <=? M) && (M <=? max_raw k (l - r + 1) * P) then Ok (M =? raw * P)
+    else if M mod P =? 0 then Err ERange else Ok false.
+Proof.
+  intros HW s M P0.
+  pose proof (p2_pos (r - s) ltac:(unfold s; lia)) as P.
+  destruct (eq_num k (l, r, raw) m e) as [t|er] eqn:E.
+  - pose proof (eq_num_numeric k l r raw m e t E) as Ht. fold s in Ht. fold M P0 in Ht.
+    revert E. unfold eq_num, ctor_num. fold s. fold M P0.
+    destruct (Z.ltb_spec (l - r + 1) 1); [lia|].
+    destruct (M mod P0 =? 0) eqn:Ex.
+    + destruct (_ && _); cbn [bind]; [|discriminate]. intros _. rewrite Ht. reflexivity.
+    + intros [= <-]. destruct (_ && _); [|reflexivity].
+      destruct (Z.eqb_spec M (raw * P0)) as [E2|]; [|reflexivity].
+      exfalso. rewrite E2 in Ex. unfold P0 in Ex. rewrite Z_mod_mult in Ex. discriminate.
+  - revert E. unfold eq_num, ctor_num. fold s. fold M P0.
+    destruct (Z.ltb_spec (l - r + 1) 1); [lia|].
+    destruct (M mod P0 =? 0); [|discriminate].
+    destruct (_ && _); cbn [bind].
+    + unfold eq_fx. rewrite !Z.eqb_refl. discriminate.
+    + intros [= <-]. reflexivity.
 Qed.
 
 (* ------------------------------------------------------------------------- *)
@@ -1185,7 +1206,9 @@ Lemma regressions :
   ctor_vec SFixed 3 (-1) true 3 (-2) = Ok (3, -1, -4) /\
   ctor_fix SFixed 4 (-2) (3, -1, -5) = Ok (4, -2, -10) /\
   ctor_fix UFixed 4 (-2) (3, -1, 5) = Ok (4, -2, 10) /\
-  ctor_num SFixed 60 0 (2 ^ 59 + 1) 0 = Ok (60, 0, 2 ^ 59 + 1).
+  ctor_num SFixed 60 0 (2 ^ 59 + 1) 0 = Ok (60, 0, 2 ^ 59 + 1) /\
+  eq_num SFixed (1, 0, 1) 3 (-1) = Ok false /\
+  eq_num UFixed (0, 0, 0) 1 (-1) = Ok false.
 Proof. vm_compute. repeat split. Qed.
 
 (* ------------------------------------------------------------------------- *)
